@@ -269,7 +269,9 @@ func (t *DateTime) SubtractDateTimeSpan(val *DateTimeSpan) *DateTime {
 }
 
 func (t *DateTime) SubtractDateSpan(val DateSpan) *DateTime {
-	return t.ToDateTimeSpan().SubtractDateSpan(val).ToDateTime()
+	// the same calendar arithmetic as addition,
+	// `x - span` is `x + -span`
+	return t.AddDateSpan(val.Negate())
 }
 
 func (t *DateTime) SubtractTimeSpan(val TimeSpan) *DateTime {
